@@ -200,13 +200,13 @@ fn dist_case(la: usize, lb: usize, lc: usize) -> impl Strategy<Value = DistCase>
 pub fn run(env: &Env, rep: &Report) {
     rep.set_rule("every vector length 0..=130 (exhaustive over lengths) x random values (1e-3..1e3 with signs, zeros, small integers); distance cases over all length pairs drawn from 0..=130 incl. different lengths, triples for the triangle inequality, positive scalings. Non-trivial: length not a multiple of 8 or two different packed lengths; distinct = distinct serialized case");
     rep.assume("reference: scalar f64 formulas on zero-padded vectors truncated to the common packed prefix; relative tolerance 1e-4 (conditioning-aware for cosine)");
-    let per_len = env.tier.pick(300u32, 6000);
+    let per_len = env.tier.pick(1500u32, 20000);
     for len in 0..=130usize {
         run_generated(rep, "roundtrip", vec_len(len).prop_map(|v| RoundTrip { v }), per_len, mix(rep.seed, len as u64), check_roundtrip);
     }
     rep.note("roundtrip", "lengths 0..=130 each enumerated".into());
     // distances: every length for a (exhaustive), b of equal / neighbouring / random length
-    let per = env.tier.pick(120u32, 2500);
+    let per = env.tier.pick(500u32, 6000);
     let w = workers();
     let lens: Vec<usize> = (0..=130).collect();
     std::thread::scope(|s| {
